@@ -266,7 +266,10 @@ def check_rejected_call(scn):
                     label, i, type(e).__name__)
             after = C.snapshot(det, name)
             ev += 1
-            if after[1] != before[1]:
+            allowed = 0
+            if before[0] == "drift" and name in ("HDDDM", "CDBD") and params.get("detect_batch", 1) == 1:
+                allowed = 1     # the pending reset (performed before validation) counts its proxy batch, once
+            if after[1] not in (before[1], before[1] + allowed):
                 return ev, True, "rejected call (%s) was counted: total %s -> %s" % (label, before[1], after[1])
         try:
             feed(det, name, st[i], i, seed)
